@@ -31,7 +31,8 @@ def run(ctx):
     sites = [(g, bb, t) for g in reach for bb, t in g.calls() if F.callee_fn(t) is ins]
     R.ob('C05.carry', ('dispatch poll', 'registration sites'), len(sites) >= 1, 'the dispatch registers transmitted requests in the table', [g.loc(t) for g, _, t in sites] or [poll.loc(poll.d)])
     for g, bb, t in sites:
-        rs = P.root(P.operand(g, t['args'][ctx_param - 1], at=bb))
+        from .common import lifter
+        rs = P.root(lifter(F, P, reach)(g, P.operand(g, t['args'][ctx_param - 1], at=bb)))
         ok = bool(rs) and all(P.is_call(r, 'mpsc::Receiver::poll_recv') for r, p in rs)
         R.ob('C05.carry', ('dispatch poll', 'deadline carried unchanged from the call'), ok,
              'the context registered (and thus the deadline armed) is the queued call\'s, unchanged', [g.loc(t)])
